@@ -1,6 +1,7 @@
 import Anysystem.Proofs.SimQueueThms
 import Anysystem.Proofs.SimNetThms
 import Anysystem.Proofs.SimStepThms
+import Anysystem.Proofs.SimStepFns
 /-!
 # C06 — Simulated time: delays, ordering, clocks and stepping are exact
 
@@ -23,5 +24,16 @@ namespace Anysystem
 #check @Sim.step_false_events
 #check @Sim.stepUntilNoEvents_spec
 #check @Sim.stepUntilLocalMax_immediate
+
+/- the stepping functions expressed through `steps`: they perform exactly k event-finding steps, their stop condition did not
+   hold before (outbox empty / every handled event due no later than the end time), it holds at the end, and the clock is
+   where documented -/
+#check @Sim.stepUntilLocal_some
+#check @Sim.stepUntilLocal_none
+#check @Sim.stepUntilLocalMax_some
+#check @Sim.stepUntilLocalMax_none
+#check @Sim.stepUntilTime_spec
+#check @Sim.stepForDuration_steps
+#check @Sim.stepForDuration_spec
 
 end Anysystem
